@@ -287,12 +287,18 @@ func writeOverlay(path string) error {
 		rel, _ := filepath.Rel(h, p)
 		if strings.HasPrefix(rel, "access"+string(filepath.Separator)) {
 			// access/<pkg path with __ for />.go -> <repo>/<pkg path>/zz_verif_access.go
+			// access/<pkg path with __ for />[--<tag>].go -> <repo>/<pkg path>/zz_verif_access[_<tag>].go
 			name := strings.TrimSuffix(filepath.Base(rel), ".go")
+			tag := ""
+			if i := strings.Index(name, "--"); i >= 0 {
+				tag = "_" + name[i+2:]
+				name = name[:i]
+			}
 			pkg := strings.ReplaceAll(name, "__", "/")
 			if pkg == "root" {
 				pkg = "."
 			}
-			repl[filepath.Join(repoDir, pkg, "zz_verif_access.go")] = p
+			repl[filepath.Join(repoDir, pkg, "zz_verif_access"+tag+".go")] = p
 			return nil
 		}
 		repl[filepath.Join(repoDir, "internal", "verif", rel)] = p
